@@ -149,6 +149,9 @@ def execute(spec, external_cancel_at=None, sample=None):
                         b.trace.log('probe-raised', S, exc=exc)
             for t_ in spec.get('probe_at') or []:
                 b.loop.call_at(t_, probe_now)
+            # edits and queries made on the freshly built tree, before its first run
+            for step in spec.get('presession') or []:
+                apply(step)
             r = vloop.run(b, external_cancel_at=external_cancel_at, again=nruns, on_second_run=second)
     finally:
         PureScheduler._create_task = orig
@@ -1089,7 +1092,7 @@ def gen_session(rng, spec, runs=None):
                     n = rng.choice(cand)
                     # positions of the remaining members shift: later 'edge' steps use the updated list
                     mem.remove(n)
-                    steps.append(['remove', S, n])
+                    steps.append([rng.choice(['remove', 'bypass']), S, n])
         sess.append(steps)
     return sess
 
